@@ -371,7 +371,7 @@ func (c *Ctx) sliceWF(s Slice) []Term {
 	}
 	if c.mode == ModeBV {
 		// keep off+cap from wrapping: objects are smaller than 2^62
-		lim := IntLit(bvSort(64), pow2(62))
+		lim := IntLit(bvSort(64), pow2(60))
 		fs = append(fs, c.ile(s.Off, lim), c.ile(s.Cap, lim))
 	}
 	return fs
@@ -796,6 +796,7 @@ func (c *Ctx) f64zero() Term {
 // alloc returns a fresh object reference.
 func (c *Ctx) allocRef(st *State) Term {
 	r := c.name(app(SInt, "+", st.alloc, Term{"1", SInt}), "new")
+	c.freshRefs[r.S] = true
 	st.alloc = r
 	return r
 }
